@@ -800,7 +800,9 @@ pub fn run_batch(prop: &str, docs: &[Doc], limits: Limits) -> Vec<DocResult> {
         if let Some(idx) = started {
             // the process died (or was killed) while document idx was running
             let err = std::fs::read_to_string(&stderr_path).unwrap_or_default();
-            let tail: String = err.lines().rev().take(4).collect::<Vec<_>>().into_iter().rev().collect::<Vec<_>>().join(" | ");
+            // the first lines name the cause (stack overflow, allocation failure, panic in a destructor, ...)
+            let lines: Vec<&str> = err.lines().filter(|l| !l.trim().is_empty()).collect();
+            let tail: String = if lines.len() <= 6 { lines.join(" | ") } else { format!("{} | ... | {}", lines[..4].join(" | "), lines[lines.len() - 1]) };
             let outcome = match status {
                 None => Outcome::Timeout,
                 Some(s) => Outcome::Crash { status: format!("{}", s), stderr_tail: tail },
